@@ -2,6 +2,7 @@ import OpusModel.EncSkel.Basic
 import OpusModel.EncSkel.Repack
 import OpusModel.EncSkel.Frame
 import OpusModel.EncSkel.Native
+import OpusModel.EncSkel.Cvbr
 /-
   OpusModel.EncSkel — the encoder size / packet skeleton shared by properties C02 and C05
   (see the headers of the four sub-modules).
